@@ -127,6 +127,7 @@ def C02(prog: Program, run: Run, tier: str) -> None:
     run.add(extra.base_world_affine_use(prog), "R-SIBLING every use of self._affine as a pixel->world mapping in the shared base class is overridden in the non-linear subclass or guarded by self.linear")
     run.add(extra.gcp_view_state(prog), "R-SIBLING every GCPGeoBox member whose GeoBox sibling is computed from the affine reads the view affine too")
     run.floor("R-AXIS|", 150)
+    run.add(round3.rotate_in_world(prog), "R-FRAME rotate composes the rotation on the world side about the mapped centre")
     run.floor("R-CORNERS|", 7)
 
 
@@ -285,6 +286,7 @@ def C14(prog: Program, run: Run, tier: str) -> None:
     run.add(_only(crsguard.rule_crsguard(prog, {"gridspec"}), "gridspec:"), "R-CRSGUARD polygon query reconciles the CRS first")
     run.add(_fwd(prog, {"gridspec"}), FWD_DESC)
     run.add(extra.gridspec_polygon_filter(prog), "R-GUARDSEQ a tile is yielded for a polygon query only under the not-disjoint test against that tile's extent")
+    run.add(round3.idx_bounds_absolute_tol(prog), "R-GUARDSEQ bounding-box query shrinks by an absolute constant")
     run.floor("R-AXIS|", 20)
 
 
